@@ -600,11 +600,10 @@ def selectVals {α : Type} (vals : List α) : Option (List Bool) → List α
   | Option.none => vals
   | some m => maskFilter vals m
 
-/-- `sum` / `minimum` / `maximum` of a list of rationals; `none` (NaN) when the list is empty and the
-statistic is not the sum. -/
+/-- `sum` / `minimum` / `maximum` of a list of rationals; `none` (NaN) when nothing is selected (C10). -/
 def statOf (stat : String) (xs : List Rat) : Option Rat :=
   match stat with
-  | "sum" => some (xs.foldl (· + ·) 0)
+  | "sum" => match xs with | [] => Option.none | _ => some (xs.foldl (· + ·) 0)
   | "minimum" => match xs with | [] => Option.none | x :: r => some (r.foldl min x)
   | "maximum" => match xs with | [] => Option.none | x :: r => some (r.foldl max x)
   | _ => Option.none
